@@ -17,6 +17,8 @@ pub const C: &str = "@c:s1";
 pub const M: &str = "@m:s1";
 pub const U: &str = "@u:s2";
 pub const Z: &str = "@z:s2";
+/// a user who has never been in the room (can knock without leaving first)
+pub const K: &str = "@k:s2";
 
 #[derive(Clone)]
 pub struct Node {
@@ -78,7 +80,7 @@ fn pl_content_with(field: &str, level: i64) -> Value {
     c
 }
 
-pub const TEMPLATES: [Template; 18] = [
+pub const TEMPLATES: [Template; 20] = [
     ("C promotes M to 100", C, "m.room.power_levels", "", || pl_content(&[(C, 100), (M, 100)])),
     ("C demotes M", C, "m.room.power_levels", "", || pl_content(&[(C, 100)])),
     ("M promotes U to 50", M, "m.room.power_levels", "", || pl_content(&[(C, 100), (M, 50), (U, 50)])),
@@ -99,6 +101,10 @@ pub const TEMPLATES: [Template; 18] = [
     ("C sets redact level 75", C, "m.room.power_levels", "", || pl_content_with("redact", 75)),
     // a join-rule change by the moderator (needs level 50 from a power_levels event)
     ("M sets join_rules knock", M, "m.room.join_rules", "", || json!({"join_rule": "knock"})),
+    // knocking exists from room version 7 (rejected by the auth rules before)
+    ("K knocks", K, "m.room.member", K, || json!({"membership": "knock"})),
+    // same sender as the knock rule: equal power, so the later one wins the power phase
+    ("M sets join_rules invite", M, "m.room.join_rules", "", || json!({"join_rule": "invite"})),
 ];
 
 /// names for appended events: creation order and id order deliberately disagree
